@@ -84,6 +84,8 @@ pub struct CallRec {
     pub lc: Option<Option<usize>>,
     /// max_utf8_buffer_length / â€¦_without_replacement / max_utf16_buffer_length for `n`, before the call
     pub q: Option<(Option<usize>, Option<usize>, Option<usize>)>,
+    /// the same three queries for a byte count near the overflow thresholds: (n, utf8, utf8 w/o repl, utf16)
+    pub qx: Option<(usize, Option<usize>, Option<usize>, Option<usize>)>,
     /// bytes of the guard bands / tail beyond `written` that were modified (C06/C18 oracles)
     pub guard_broken: bool,
 }
@@ -113,8 +115,16 @@ pub fn one_call(
         had_errors: None,
         lc: None,
         q: None,
+        qx: None,
         guard_broken: false,
     };
+    {
+        let dref = std::panic::AssertUnwindSafe(&*d);
+        let n = crate::util::big_n(src.len() * 7 + cap % 36 + (last as usize));
+        if let Ok(v) = catch(move || (dref.max_utf8_buffer_length(n), dref.max_utf8_buffer_length_without_replacement(n), dref.max_utf16_buffer_length(n))) {
+            rec.qx = Some((n, v.0, v.1, v.2));
+        }
+    }
     {
         let dref = std::panic::AssertUnwindSafe(&*d);
         let n = src.len();
@@ -259,6 +269,9 @@ pub struct Plan {
     /// capacities used cyclically, one per call; the value `QUERY_CAP` means "whatever the matching
     /// max_*_buffer_length* query returns for this call" (C07)
     pub caps: Vec<usize>,
+    /// after a `Malformed` that consumed the whole chunk (not the last one) go straight to the
+    /// next chunk instead of first calling again with the empty remainder
+    pub skip: bool,
 }
 
 pub const QUERY_CAP: usize = usize::MAX;
@@ -325,7 +338,11 @@ pub fn run_plan(p: &Plan, fill: u8) -> Outcome {
                         stuck += 1
                     }
                 }
-                Res::Malformed(_, _) => {}
+                Res::Malformed(_, _) => {
+                    if p.skip && !last && off == chunk.len() {
+                        break;
+                    }
+                }
             }
             if calls.len() > limit {
                 aborted = Some("call-limit".into());
@@ -366,6 +383,10 @@ pub fn show_calls(calls: &[CallRec], sink16: bool) -> String {
                 let f = |x: Option<usize>| x.map(|v| v.to_string()).unwrap_or_else(|| "-".into());
                 s.push_str(&format!(",q={}/{}/{}", f(a), f(b), f(cc)));
             }
+            if let Some((n, a, b, cc)) = c.qx {
+                let f = |x: Option<usize>| x.map(|v| v.to_string()).unwrap_or_else(|| "-".into());
+                s.push_str(&format!(",qx={}:{}/{}/{}", n, f(a), f(b), f(cc)));
+            }
             s
         })
         .collect::<Vec<_>>()
@@ -387,14 +408,15 @@ pub fn op_lhs(p: &Plan, calls: &[CallRec]) -> String {
 /// A plan line without results, for replays: cuts and caps instead of call records.
 pub fn plan_lhs(p: &Plan) -> String {
     format!(
-        "decplan {} {} {} {} {} {} {}",
+        "decplan {} {} {} {} {} {} {}{}",
         ident(p.enc),
         p.bom.name(),
         if p.sink16 { "u16" } else { "u8" },
         if p.repl { "repl" } else { "raw" },
         hex(&p.stream),
         nats(&p.cuts),
-        nats(&p.caps)
+        nats(&p.caps),
+        if p.skip { " skip" } else { "" }
     )
 }
 
@@ -453,6 +475,7 @@ fn single_plan(p: &Plan, repl: bool, sink16: bool, bom: Bom) -> Plan {
         stream: p.stream.clone(),
         cuts: vec![p.stream.len()],
         caps: vec![big],
+        skip: false,
     }
 }
 
@@ -658,6 +681,7 @@ pub fn oracles(out: &mut Out, p: &Plan, o: &Outcome, props: &[&str]) {
             stream: p.stream[skip..].to_vec(),
             cuts: vec![p.stream.len() - skip],
             caps: vec![p.stream.len() * 4 + 64],
+            skip: false,
         };
         let bo = run_plan(&bp, 0);
         if let Ok(mut bsum) = summarize(&bp, &bo) {
@@ -734,7 +758,20 @@ const SEED_TEXT: &str = "A<b> Ã© ÃŸ Î© Ñ ×© Ø¹ à¸ ä¸­æ–‡å­— æ¼¢å­— ã‹ãª ã‚«ã
 pub fn gen_stream(rng: &mut Rng, e: &'static Encoding, maxlen: usize) -> Vec<u8> {
     let mut v: Vec<u8> = Vec::new();
     let mode = rng.below(10);
-    if mode < 5 {
+    if (e == UTF_16LE || e == UTF_16BE) && rng.chance(2, 5) {
+        // code-unit classes: U+0000 (the value `lead_surrogate == 0` also stands for), ASCII, BMP,
+        // lead and trail surrogates in every order, noncharacters, the BOMs; optionally an odd byte
+        const UNITS: &[u16] = &[0x0000, 0x0000, 0x0041, 0x00E9, 0x3042, 0xD83D, 0xD83D, 0xDCA9, 0xDCA9, 0xD800, 0xDBFF, 0xDC00, 0xDFFF, 0xFFFD, 0xFFFE, 0xFEFF, 0xFFFF];
+        let n = rng.below(maxlen / 2 + 1);
+        for _ in 0..n {
+            let u = *rng.pick(UNITS);
+            let b = if e == UTF_16LE { u.to_le_bytes() } else { u.to_be_bytes() };
+            v.extend_from_slice(&b);
+        }
+        if rng.chance(1, 3) {
+            v.push(*rng.pick(ALPHABET));
+        }
+    } else if mode < 5 {
         // mostly valid: encode a shuffled selection of the seed text, then mutate a little
         let chars: Vec<char> = SEED_TEXT.chars().collect();
         let n = 1 + rng.below(maxlen.max(1));
@@ -874,7 +911,7 @@ fn gen_bom_universe(out: &mut Out, rng: &mut Rng, encs: &[&'static Encoding], pr
                     let repl = rng.chance(1, 3);
                     let m = min_cap(sink16);
                     let caps = if rng.chance(1, 2) { vec![m] } else { vec![m + rng.below(3), 64] };
-                    let p = Plan { enc: e, bom, sink16, repl, stream: stream.clone(), cuts: cuts.clone(), caps };
+                    let p = Plan { enc: e, bom, sink16, repl, stream: stream.clone(), cuts: cuts.clone(), caps, skip: false };
                     emit(out, &p, props);
                 }
             }
@@ -908,7 +945,7 @@ fn gen_str_sinks(out: &mut Out, rng: &mut Rng, encs: &[&'static Encoding], per: 
             let to_string = rng.chance(1, 2);
             let bom = *rng.pick(&[Bom::Off, Bom::Off, Bom::Sniff, Bom::Remove]);
             let caps: Vec<usize> = (0..4).map(|_| 4 + rng.below(24)).collect();
-            let p = Plan { enc: e, bom, sink16: false, repl, stream: stream.clone(), cuts: cuts.clone(), caps: caps.clone() };
+            let p = Plan { enc: e, bom, sink16: false, repl, stream: stream.clone(), cuts: cuts.clone(), caps: caps.clone(), skip: false };
             let lhs = format!("{} sink={}", plan_lhs(&p), if to_string { "String" } else { "str" });
             out.oracle_evals += 1;
             let mut d = new_decoder(e, bom);
@@ -1128,7 +1165,8 @@ pub fn generate(prop: &str, out: &mut Out, thorough: bool, seed: u64) -> bool {
             };
             let cuts = gen_cuts(&mut rng, stream.len());
             let caps = if prop == "C07" && rng.chance(3, 4) { vec![QUERY_CAP] } else { gen_caps(&mut rng, sink16, prop == "C06") };
-            let p = Plan { enc: e, bom, sink16, repl, stream, cuts, caps };
+            let skip = rng.chance(1, 2);
+            let p = Plan { enc: e, bom, sink16, repl, stream, cuts, caps, skip };
             emit(out, &p, &props);
         }
     }
@@ -1136,10 +1174,11 @@ pub fn generate(prop: &str, out: &mut Out, thorough: bool, seed: u64) -> bool {
 }
 
 pub fn parse_plan(toks: &[&str]) -> Option<Plan> {
-    if toks.len() != 8 {
+    if toks.len() != 8 && !(toks.len() == 9 && toks[8] == "skip") {
         return None;
     }
     Some(Plan {
+        skip: toks.len() == 9,
         enc: enc_by_ident(toks[1])?,
         bom: Bom::parse(toks[2]),
         sink16: toks[3] == "u16",
@@ -1159,12 +1198,17 @@ pub fn plan_from_dec(toks: &[&str]) -> Option<Plan> {
     let mut cuts = Vec::new();
     let mut caps = Vec::new();
     let mut consumed = 0usize;
+    let mut skip = false;
+    // the previous call was a Malformed that consumed all it was given (and was not `last`)
+    let mut prev_mal_all: Option<usize> = None;
     if toks[6] != "." {
         for c in toks[6].split(';') {
             let mut n = 0usize;
             let mut cap = 0usize;
             let mut rd = 0usize;
             let mut inputempty = false;
+            let mut mal = false;
+            let mut lastf = false;
             for kv in c.split(',') {
                 let mut it = kv.split('=');
                 let k = it.next()?;
@@ -1173,11 +1217,23 @@ pub fn plan_from_dec(toks: &[&str]) -> Option<Plan> {
                     "n" => n = v.parse().ok()?,
                     "c" => cap = v.parse().ok()?,
                     "rd" => rd = v.parse().ok()?,
-                    "r" => inputempty = v == "I",
+                    "r" => {
+                        inputempty = v == "I";
+                        mal = v.starts_with('M');
+                    }
+                    "l" => lastf = v == "1",
                     _ => {}
                 }
             }
             caps.push(cap);
+            if let Some(at) = prev_mal_all {
+                if n > 0 {
+                    // the caller went on with the next chunk without an empty call
+                    skip = true;
+                    cuts.push(at);
+                }
+            }
+            prev_mal_all = if mal && rd == n && !lastf { Some(consumed + n) } else { None };
             if inputempty {
                 cuts.push(consumed + n);
             }
@@ -1190,7 +1246,7 @@ pub fn plan_from_dec(toks: &[&str]) -> Option<Plan> {
     if caps.is_empty() {
         caps.push(64);
     }
-    Some(Plan { enc: enc_by_ident(toks[1])?, bom: Bom::parse(toks[2]), sink16: toks[3] == "u16", repl: toks[4] == "repl", stream, cuts, caps })
+    Some(Plan { enc: enc_by_ident(toks[1])?, bom: Bom::parse(toks[2]), sink16: toks[3] == "u16", repl: toks[4] == "repl", stream, cuts, caps, skip })
 }
 
 pub fn replay(toks: &[&str], out: &mut Out) -> bool {
